@@ -14,7 +14,7 @@ P = {
                   'transaction goes through the real encoder and decoder); Keccak and ECDSA enter as arbitrary functions; no axioms',
     'technique': 'Coq proof (round-trip identities, RLP injectivity via a decoder) + differential correspondence against the real codec and go-ethereum',
     'drivers': [
-        {'name': 'txcodec', 'n': {'quick': 600, 'thorough': 40000}, 'batch': 4000},
+        {'name': 'txcodec', 'n': {'quick': 600, 'thorough': 12000}, 'batch': 4000},
     ],
     'coq_header': 'From Coq Require Import Ascii String.\nFrom Coq Require Import ZArith NArith List.\n'
                   'From HV Require Import Base.Bytes TxCodec.EthTxModel.\nImport ListNotations.\nLocal Open Scope string_scope.',
